@@ -28,7 +28,7 @@ def sh(cmd, cwd=None, env=None, timeout=3600):
     return p.returncode, p.stdout
 
 
-def do_import(wt, pid, which):
+def do_import(wt, pid, which, dest=None):
     d = os.path.join(wt, "deliver")
     patch = os.path.join(d, f"mutant_{which}.diff")
     demo = os.path.join(d, f"demo_{which}.py")
@@ -57,7 +57,7 @@ def do_import(wt, pid, which):
     if not ok:
         print(o0[-300:], o1[-300:])
         return False
-    dst = os.path.join(SEEDED, f"{pid}_{which}")
+    dst = os.path.join(SEEDED, f"{pid}_{dest or which}")
     os.makedirs(dst, exist_ok=True)
     shutil.copy(patch, os.path.join(dst, "patch.diff"))
     shutil.copy(demo, os.path.join(dst, "demo.py"))
@@ -107,7 +107,7 @@ def do_run(dirs, tier, checks):
 def main():
     a = sys.argv[1:]
     if a and a[0] == "import":
-        sys.exit(0 if do_import(a[1], a[2], a[3]) else 1)
+        sys.exit(0 if do_import(a[1], a[2], a[3], a[4] if len(a) > 4 else None) else 1)
     if a and a[0] == "run":
         tier = "quick"
         checks = None
